@@ -30,7 +30,13 @@ def root_local(body, flow, local):
     return sorted(referent_roots(body, local))
 
 
-def check_actor(ctx, facts):
+def check_actor(ctx, facts, rule='C15.N1.SEM'):
+    # SEM: snapshot -> watcher -> set_nodes -> actor -> select_nodes, end to end (selactor_abs): every request is answered from the layout of
+    # the latest membership update, exactly its members by data centre, never from a selection cached before it.  Subsumes N1 (layout
+    # replaced) and N2 (cache cleared), which are evaluated only when a construct is not modelled.
+    import selactor_abs
+    if selactor_abs.check_selector_actor(ctx, facts, rule):
+        return
     actors = [b for b in facts.bodies.values() if b.crate == 'datacake_node' and b.kind == 'coroutine' and not b.d['promoted']
               and any(cname(t) == NS + 'NodeSelector::select_nodes' for _b, t in b.calls())
               and any(cname(t) and 'recv_async' in cname(t) for _b, t in b.calls())]
